@@ -100,5 +100,5 @@ def run(ctx):
         "trap_schedules": len(scheds), "schedule_commands_diverged": div, "events_validated": len(log),
         "samples": [scheds[0]] + runs[len(runs) // 2][:25],
     }, assumptions=["controlled runs are sequences of macro-steps (one shared-memory operation per release); the equivalence of free-running executions to such sequences rests on the linearizability of Go's channels, atomics and contexts",
-                    "handlers are reached through BatchExecutor (operation handler outcomes ok / typed error / plain error / panic with string, error, int, runtime error, Stringer)",
+                    "handlers are reached through BatchExecutor (operation handler outcomes ok / typed error / plain error, also of unhashable dynamic type (slice, wrapped struct with a slice field) / panic with string, error, int, runtime error, Stringer, unhashable error value)",
                     "in-memory transport: writes never block; the gate-level runs are TLS-less, the TLS handshake branch is covered by the TlsAccept histories (free-running goroutines, quiescence after every step)"])
